@@ -119,7 +119,7 @@ def err_excerpt(out, n=25):
 _STATS = re.compile(r"(\d+) states generated, (\d+) distinct states found, (\d+) states left on queue")
 _DEPTH = re.compile(r"The depth of the complete state graph search is (\d+)")
 _INVV = re.compile(r"Error: Invariant (\S+) is violated")
-_PROPV = re.compile(r"Error: (Action property|Temporal properties) (\S*)")
+_PROPV = re.compile(r"Error: (Action property|Temporal propert(?:y|ies)) (\S*)")
 
 
 def make_cfg(spec="Spec", constants=None, invariants=(), properties=(), constraint=None, action_constraint=None,
